@@ -4,7 +4,9 @@
 //
 // Case: kind = kf | ukf_gen | ukf_add | sukf | gl | boot_gl | boot_custom |
 //              gpf_<inner>_<lik> (inner kf|ukfgen|ukfadd, lik gl|custom) | sis
-//   meta  n m comps steps sub risky
+//   meta  n m comps steps sub risky skip iskip emptyR alias online reduced
+//         (skip_: driven correction / correction wrapped by GPF; failing noise-covariance call returns an empty matrix;
+//          correct(p, p); UKF update_weights_online; SUKF reduced noise covariance)
 //   word  pat  <6 bits per step: measure predictedMeasure innovation noisecov freeze likelihood;
 //               gpf_*: optionally 12 bits, the second six apply while the likelihood model is evaluated>
 //   mat   H R ; per step k: y<k> means<k> covs<k> weights<k> [states<k>]
@@ -29,6 +31,9 @@
 #include <BayesFilters/SUKFCorrection.h>
 #include <BayesFilters/StateModel.h>
 #include <BayesFilters/UKFCorrection.h>
+#include <BayesFilters/utils.h>
+#include <Eigen/Cholesky>
+#include <random>
 #include <cstring>
 #include <fcntl.h>
 #include <memory>
@@ -44,6 +49,7 @@ struct Shared {
     std::string bits = "000000";    // pattern of the step
     std::string bits2 = "000000";   // pattern while a PhaseLik-wrapped likelihood model is being evaluated (GPF's second phase)
     int phase = 0;
+    bool empty_on_fail = false;     // a failing getNoiseCovarianceMatrix returns an empty matrix next to its flag
     MatrixXd y;
     std::vector<std::string> log;
     bool fails(int s) const { const std::string& b = phase ? bits2 : bits; return s < (int)b.size() && b[s] == '1'; }
@@ -52,8 +58,8 @@ struct Shared {
 // fault-injecting linear sensor; usable as Linear-, Additive- and plain MeasurementModel
 class FaultyModel : public LinearMeasurementModel {
 public:
-    FaultyModel(std::shared_ptr<Shared> sh, const MatrixXd& H, const MatrixXd& R, bool noise_in_input)
-        : sh_(sh), H_(H), R_(R), noise_in_input_(noise_in_input) {}
+    FaultyModel(std::shared_ptr<Shared> sh, const MatrixXd& H, const MatrixXd& R, bool noise_in_input, long reduced_to = 0)
+        : sh_(sh), H_(H), R_(R), noise_in_input_(noise_in_input) { if (reduced_to > 0) Rret_ = R.topLeftCorner(reduced_to, reduced_to); else Rret_ = R; }
     bool freeze(const Data&) override { sh_->log.push_back("F"); return !sh_->fails(S_F); }
     std::pair<bool, Data> measure(const Data&) const override {
         sh_->log.push_back("M");
@@ -76,14 +82,16 @@ public:
     }
     std::pair<bool, MatrixXd> getNoiseCovarianceMatrix() const override {
         sh_->log.push_back("N");
-        return std::make_pair(!sh_->fails(S_N), R_);
+        if (sh_->fails(S_N)) return std::make_pair(false, sh_->empty_on_fail ? MatrixXd() : Rret_);
+        return std::make_pair(true, Rret_);
     }
-    MatrixXd getMeasurementMatrix() const override { return H_; }
-    VectorDescription getInputDescription() const override { return VectorDescription(H_.cols(), 0, noise_in_input_ ? H_.rows() : 0); }
-    VectorDescription getMeasurementDescription() const override { return VectorDescription(H_.rows()); }
+    // getters: logged too (they cannot signal unavailability)
+    MatrixXd getMeasurementMatrix() const override { sh_->log.push_back("H"); return H_; }
+    VectorDescription getInputDescription() const override { sh_->log.push_back("Di"); return VectorDescription(H_.cols(), 0, noise_in_input_ ? H_.rows() : 0); }
+    VectorDescription getMeasurementDescription() const override { sh_->log.push_back("D"); return VectorDescription(H_.rows()); }
 private:
     std::shared_ptr<Shared> sh_;
-    MatrixXd H_, R_;
+    MatrixXd H_, R_, Rret_;
     bool noise_in_input_;
 };
 
@@ -94,9 +102,12 @@ public:
     std::pair<bool, VectorXd> likelihood(const MeasurementModel&, const Ref<const MatrixXd>& states) override {
         sh_->log.push_back("L");
         if (sh_->fails(S_L)) return std::make_pair(false, VectorXd::Zero(1));
+        return std::make_pair(true, value(states, sh_->y));
+    }
+    static VectorXd value(const Ref<const MatrixXd>& states, const MatrixXd& y) {
         VectorXd v(states.cols());
-        for (long i = 0; i < states.cols(); i++) v(i) = 0.25 + 1.0 / (1.0 + states.col(i).squaredNorm() + sh_->y.squaredNorm());
-        return std::make_pair(true, v);
+        for (long i = 0; i < states.cols(); i++) v(i) = 0.25 + 1.0 / (1.0 + states.col(i).squaredNorm() + y.squaredNorm());
+        return v;
     }
 private:
     std::shared_ptr<Shared> sh_;
@@ -154,9 +165,11 @@ static bool same_shape(const GaussianMixture& a, const GaussianMixture& b) {
 static void out_log(const std::string& name, const std::vector<std::string>& l) {
     if (l.empty()) vf::out_word(name, {"-"}); else vf::out_word(name, l);
 }
+// identity is judged against the copy of the predicted belief taken before the call (with correct(p, p) the
+// predicted object itself is the output)
 static void emit_gm(const std::string& k, const GaussianMixture& pred, const GaussianMixture& pred_copy, const GaussianMixture& out) {
-    bool im = vf::bit_equal(out.mean(), pred.mean()), ic = vf::bit_equal(out.covariance(), pred.covariance()),
-         iw = vf::bit_equal(out.weight(), pred.weight()), is = same_shape(out, pred);
+    bool im = vf::bit_equal(out.mean(), pred_copy.mean()), ic = vf::bit_equal(out.covariance(), pred_copy.covariance()),
+         iw = vf::bit_equal(out.weight(), pred_copy.weight()), is = same_shape(out, pred_copy);
     vf::out_int("ident_mean" + k, im); vf::out_int("ident_cov" + k, ic); vf::out_int("ident_w" + k, iw); vf::out_int("ident_shape" + k, is);
     vf::out_int("ident_g" + k, im && ic && iw && is);
     vf::out_int("components" + k, out.components);
@@ -166,7 +179,7 @@ static void emit_gm(const std::string& k, const GaussianMixture& pred, const Gau
 }
 static void emit_ps(const std::string& k, const ParticleSet& pred, const ParticleSet& pred_copy, const ParticleSet& out) {
     emit_gm(k, pred, pred_copy, out);
-    bool ist = vf::bit_equal(out.state(), pred.state());
+    bool ist = vf::bit_equal(out.state(), pred_copy.state());
     vf::out_int("ident_state" + k, ist);
     vf::out_mat("state" + k, out.state());
     vf::out_int("pred_state_unchanged" + k, vf::bit_equal(pred.state(), pred_copy.state()));
@@ -187,19 +200,22 @@ static void set_step(const vf::Case& c, Shared& sh, long k) {
     sh.log.clear();
 }
 
-// a GaussianCorrection driven through the steps; the output object is reused
+// a GaussianCorrection driven through the steps; the output object is reused (alias: the predicted object is the output)
 static void run_gauss(const vf::Case& c, GaussianCorrection& corr, Shared& sh, const char* l_correct, const char* l_lik) {
     GaussianMixture out = make_gm(c, "", "o");
     const long steps = c.mi("steps");
+    const bool alias = c.mi("alias") == 1;
+    if (c.mi("skip") == 1) corr.skip(true);
     for (long k = 0; k < steps; k++) {
         const std::string ks = std::to_string(k);
         set_step(c, sh, k);
         GaussianMixture pred = make_gm(c, ks), pred_copy(pred);
+        GaussianMixture& o = alias ? pred : out;
         vf::out_int("step_begin" + ks, 1); std::cout << std::flush;
-        { vf::Entry e(l_correct); corr.correct(pred, out); }
-        emit_gm(ks, pred, pred_copy, out);
-        vf::out_int("ident" + ks, vf::bit_equal(out.mean(), pred.mean()) && vf::bit_equal(out.covariance(), pred.covariance())
-                                       && vf::bit_equal(out.weight(), pred.weight()) && same_shape(out, pred));
+        { vf::Entry e(l_correct); corr.correct(pred, o); }
+        emit_gm(ks, pred, pred_copy, o);
+        vf::out_int("ident" + ks, vf::bit_equal(o.mean(), pred_copy.mean()) && vf::bit_equal(o.covariance(), pred_copy.covariance())
+                                       && vf::bit_equal(o.weight(), pred_copy.weight()) && same_shape(o, pred_copy));
         out_log("log" + ks, sh.log);
         sh.log.clear();
         vf::out_int("lik_begin" + ks, 1); std::cout << std::flush;
@@ -209,20 +225,66 @@ static void run_gauss(const vf::Case& c, GaussianCorrection& corr, Shared& sh, c
     }
 }
 
-static void run_pf(const vf::Case& c, PFCorrection& corr, Shared& sh, const char* l_correct, const char* l_lik) {
+// what the known finding "GPFCorrection does not notice that the wrapped correction could not use the
+// measurement" must produce and nothing else: states re-drawn around the PREDICTED moments with the
+// correction's own generator (seed 7, first draws), weights from the predicted weights, the likelihood at
+// the new states, the transition probability 0.5 of the stub state model and the proposal density
+static void emit_gpf_mirror(const std::string& ks, const vf::Case& c, const ParticleSet& pred, const ParticleSet& out,
+                            const MatrixXd& H, const MatrixXd& R, const MatrixXd& y, bool custom) {
+    std::mt19937_64 gen(7);
+    std::normal_distribution<double> dist(0.0, 1.0);
+    const long n = pred.dim, N = pred.components;
+    MatrixXd states(n, N);
+    for (long i = 0; i < N; i++) {
+        MatrixXd cov = pred.covariance(i); VectorXd mean = pred.mean(i);
+        LDLT<MatrixXd> chol_ldlt(cov);
+        MatrixXd sqrt_P = (chol_ldlt.transpositionsP() * MatrixXd::Identity(mean.size(), mean.size())).transpose() *
+                          chol_ldlt.matrixL() * chol_ldlt.vectorD().real().cwiseSqrt().asDiagonal();
+        VectorXd z(mean.size());
+        for (int r = 0; r < z.size(); r++) z(r) = dist(gen);
+        states.col(i) = mean + sqrt_P * z;
+    }
+    VectorXd lik;
+    if (custom) lik = FaultyLik::value(states, y);
+    else {
+        auto sh2 = std::make_shared<Shared>(); sh2->y = y;
+        FaultyModel fm(sh2, H, R, false);
+        GaussianLikelihood gl_obj; LikelihoodModel& gl = gl_obj;
+        bool ok; std::tie(ok, lik) = gl.likelihood(fm, states);
+    }
+    const double eps = std::numeric_limits<double>::min();
+    VectorXd w(N);
+    for (long i = 0; i < N; i++) {
+        double q = utils::multivariate_gaussian_density(states.col(i), pred.mean(i), pred.covariance(i)).coeff(0);
+        w(i) = pred.weight(i) + std::log(lik(i) + eps) + std::log(0.5 + eps) - std::log(q + eps);
+    }
+    auto maxdiff = [](const MatrixXd& a, const MatrixXd& b) {
+        if (a.rows() != b.rows() || a.cols() != b.cols()) return (double)INFINITY;
+        double d = 0; for (long i = 0; i < a.rows(); i++) for (long j = 0; j < a.cols(); j++) { double e = std::fabs(a(i, j) - b(i, j)); if (!(e <= d)) d = e; } return d; };
+    vf::out_int("mirror_state_bits" + ks, vf::bit_equal(states, out.state()));
+    vf::out_num("mirror_state_diff" + ks, maxdiff(states, out.state()));
+    vf::out_int("mirror_w_bits" + ks, vf::bit_equal(w, out.weight()));
+    vf::out_num("mirror_w_diff" + ks, maxdiff(w, out.weight()));
+}
+
+static void run_pf(const vf::Case& c, PFCorrection& corr, Shared& sh, const char* l_correct, const char* l_lik, int gpf_custom = -1) {
     ParticleSet out = make_ps(c, "", "o");
     const long steps = c.mi("steps");
+    const bool alias = c.mi("alias") == 1;
+    if (c.mi("skip") == 1) corr.skip(true);
     for (long k = 0; k < steps; k++) {
         const std::string ks = std::to_string(k);
         set_step(c, sh, k);
         ParticleSet pred = make_ps(c, ks), pred_copy(pred);
+        ParticleSet& o = alias ? pred : out;
         vf::out_int("step_begin" + ks, 1); std::cout << std::flush;
-        { vf::Entry e(l_correct); corr.correct(pred, out); }
-        emit_ps(ks, pred, pred_copy, out);
-        vf::out_int("ident" + ks, vf::bit_equal(out.mean(), pred.mean()) && vf::bit_equal(out.covariance(), pred.covariance())
-                                       && vf::bit_equal(out.weight(), pred.weight()) && same_shape(out, pred)
-                                       && vf::bit_equal(out.state(), pred.state()));
+        { vf::Entry e(l_correct); corr.correct(pred, o); }
+        emit_ps(ks, pred, pred_copy, o);
+        vf::out_int("ident" + ks, vf::bit_equal(o.mean(), pred_copy.mean()) && vf::bit_equal(o.covariance(), pred_copy.covariance())
+                                       && vf::bit_equal(o.weight(), pred_copy.weight()) && same_shape(o, pred_copy)
+                                       && vf::bit_equal(o.state(), pred_copy.state()));
         out_log("log" + ks, sh.log);
+        if (gpf_custom >= 0 && k == 0 && !alias) emit_gpf_mirror(ks, c, pred_copy, o, c.mat("H"), c.mat("R"), sh.y, gpf_custom == 1);
         sh.log.clear();
         vf::out_int("lik_begin" + ks, 1); std::cout << std::flush;
         bool ok; VectorXd lik;
@@ -231,7 +293,8 @@ static void run_pf(const vf::Case& c, PFCorrection& corr, Shared& sh, const char
     }
 }
 
-// SIS: initialization_step and filtering_step called directly (step_number() = 0: no prediction)
+// ---- SIS: the real filtering thread runs a scripted number of steps over a real BootstrapCorrection
+// (GaussianLikelihood over the faulty sensor), a prediction that logs, and the library's Resampling
 struct CaseInit : public ParticleSetInitialization {
     ParticleSet p;
     explicit CaseInit(const ParticleSet& q) : p(q) {}
@@ -243,42 +306,56 @@ struct StubPrediction : public PFPrediction {
     StubPrediction(long n, std::shared_ptr<Shared> s) : sm(n), sh(s) {}
     StateModel& getStateModel() noexcept override { return sm; }
 protected:
-    void predictStep(const ParticleSet& prev, ParticleSet& pred) override { sh->log.push_back("predict"); pred = prev; }
-};
-struct LoggingCorrection : public PFCorrection {
-    std::shared_ptr<Shared> sh;
-    std::unique_ptr<FaultyModel> mm;
-    FaultyLik lm;
-    LoggingCorrection(std::shared_ptr<Shared> s, std::unique_ptr<FaultyModel> m) : sh(s), mm(std::move(m)), lm(s) {}
-    MeasurementModel& getMeasurementModel() noexcept override { return *mm; }
-    LikelihoodModel& getLikelihoodModel() noexcept override { return lm; }
-    std::pair<bool, VectorXd> getLikelihood() override { return std::make_pair(false, VectorXd()); }
-protected:
-    void correctStep(const ParticleSet& pred, ParticleSet& cor) override {
-        sh->log.push_back("C");
-        cor = pred;
-        for (long i = 0; i < (long)cor.components; i++) cor.weight(i) += 0.125 * (i + 1);
+    void predictStep(const ParticleSet& prev, ParticleSet& pred) override {
+        sh->log.push_back("predict");
+        pred = prev;
+        pred.state().array() += 0.5;
     }
 };
-struct NeverResample : public Resampling {
+struct LoggingBootstrap : public BootstrapCorrection {
     std::shared_ptr<Shared> sh;
-    explicit NeverResample(std::shared_ptr<Shared> s) : sh(s) {}
-    double neff(const Ref<const VectorXd>& w) override { return static_cast<double>(w.size()); }
-    void resample(const ParticleSet&, ParticleSet&, Ref<VectorXi>) override { sh->log.push_back("resample"); }
+    LoggingBootstrap(std::shared_ptr<Shared> s, std::unique_ptr<MeasurementModel> m, std::unique_ptr<LikelihoodModel> l)
+        : BootstrapCorrection(std::move(m), std::move(l)), sh(s) {}
+protected:
+    void correctStep(const ParticleSet& pred, ParticleSet& cor) override { sh->log.push_back("C"); BootstrapCorrection::correctStep(pred, cor); }
 };
-struct OpenSIS : public SIS {
+struct LoggingResampling : public Resampling {
+    std::shared_ptr<Shared> sh;
+    explicit LoggingResampling(std::shared_ptr<Shared> s) : Resampling(11), sh(s) {}
+    void resample(const ParticleSet& cor, ParticleSet& res, Ref<VectorXi> parents) override { sh->log.push_back("resample"); Resampling::resample(cor, res, parents); }
+};
+struct StepRecord { ParticleSet pred_at_log, cor_at_log, cor_end; std::vector<std::string> log; bool logged = false; };
+struct ScriptedSIS : public SIS {
+    const vf::Case* c = nullptr;
+    std::shared_ptr<Shared> sh;
+    long k = 0, steps = 0;
+    std::vector<StepRecord> rec;
     using SIS::SIS;
-    bool init() { return initialization_step(); }
-    void step() { filtering_step(); }
-    ParticleSet& pred() { return pred_particle_; }
     ParticleSet& cor() { return cor_particle_; }
+protected:
+    bool run_condition() override { return k < steps; }
+    void filtering_step() override {
+        vf::Entry e("SIS::filtering_step");
+        set_step(*c, *sh, k);
+        rec.emplace_back();
+        SIS::filtering_step();
+        rec.back().cor_end = cor_particle_;
+        rec.back().log = sh->log;
+        k++;
+    }
+    void log() override { rec.back().pred_at_log = pred_particle_; rec.back().cor_at_log = cor_particle_; rec.back().logged = true; SIS::log(); }
 };
+static bool ps_equal(const ParticleSet& a, const ParticleSet& b) {
+    return vf::bit_equal(a.mean(), b.mean()) && vf::bit_equal(a.covariance(), b.covariance()) && vf::bit_equal(a.weight(), b.weight())
+        && same_shape(a, b) && vf::bit_equal(a.state(), b.state());
+}
 
 static void run_case(const vf::Case& c) {
     const std::string& kind = c.kind;
     const long n = c.mi("n"), m = c.mi("m");
     const MatrixXd& H = c.mat("H"); const MatrixXd& R = c.mat("R");
     auto sh = std::make_shared<Shared>();
+    sh->empty_on_fail = c.mi("emptyR") == 1;
     const double alpha = 1.0, beta = 2.0, kappa = 0.0;
     vf::out_begin(c.id);
     std::cout << std::flush;
@@ -286,13 +363,15 @@ static void run_case(const vf::Case& c) {
         KFCorrection corr(std::unique_ptr<LinearMeasurementModel>(new FaultyModel(sh, H, R, false)));
         run_gauss(c, corr, *sh, "KFCorrection::correct", "KFCorrection::getLikelihood");
     } else if (kind == "ukf_gen") {
-        UKFCorrection corr(std::unique_ptr<MeasurementModel>(new FaultyModel(sh, H, R, true)), alpha, beta, kappa);
+        UKFCorrection corr(std::unique_ptr<MeasurementModel>(new FaultyModel(sh, H, R, true)), alpha, beta, kappa, c.mi("online") == 1);
+        sh->log.clear();
         run_gauss(c, corr, *sh, "UKFCorrection(generic)::correct", "UKFCorrection(generic)::getLikelihood");
     } else if (kind == "ukf_add") {
         UKFCorrection corr(std::unique_ptr<AdditiveMeasurementModel>(new FaultyModel(sh, H, R, false)), alpha, beta, kappa);
         run_gauss(c, corr, *sh, "UKFCorrection(additive)::correct", "UKFCorrection(additive)::getLikelihood");
     } else if (kind == "sukf") {
-        SUKFCorrection corr(std::unique_ptr<AdditiveMeasurementModel>(new FaultyModel(sh, H, R, false)), alpha, beta, kappa, c.mi("sub"), false);
+        const bool reduced = c.mi("reduced") == 1;
+        SUKFCorrection corr(std::unique_ptr<AdditiveMeasurementModel>(new FaultyModel(sh, H, R, false, reduced ? c.mi("sub") : 0)), alpha, beta, kappa, c.mi("sub"), reduced);
         run_gauss(c, corr, *sh, "SUKFCorrection::correct", "SUKFCorrection::getLikelihood");
     } else if (kind == "gl") {
         FaultyModel fm(sh, H, R, false);
@@ -324,33 +403,43 @@ static void run_case(const vf::Case& c) {
             gc.reset(new KFCorrection(std::unique_ptr<LinearMeasurementModel>(new FaultyModel(sh, H, R, false))));
         else if (kind.find("_ukfgen_") != std::string::npos)
             gc.reset(new UKFCorrection(std::unique_ptr<MeasurementModel>(new FaultyModel(sh, H, R, true)), alpha, beta, kappa));
-        else
+        else if (kind.find("_ukfadd_") != std::string::npos)
             gc.reset(new UKFCorrection(std::unique_ptr<AdditiveMeasurementModel>(new FaultyModel(sh, H, R, false)), alpha, beta, kappa));
+        else
+            gc.reset(new SUKFCorrection(std::unique_ptr<AdditiveMeasurementModel>(new FaultyModel(sh, H, R, false)), alpha, beta, kappa, c.mi("sub"), false));
+        if (c.mi("iskip") == 1) gc->skip(true);
         std::unique_ptr<LikelihoodModel> plm(new PhaseLik(sh, std::move(lm)));
         GPFCorrection corr(std::move(plm), std::move(gc), std::unique_ptr<StateModel>(new StubState(n)), 7);
-        run_pf(c, corr, *sh, "GPFCorrection::correct", "GPFCorrection::getLikelihood");
+        sh->log.clear();
+        run_pf(c, corr, *sh, "GPFCorrection::correct", "GPFCorrection::getLikelihood", custom ? 1 : 0);
     } else if (kind == "sis") {
-        set_step(c, *sh, 0);
         ParticleSet pred0 = make_ps(c, "0");
         ParticleSet cor0 = make_ps(c, "", "o");
         const long N = pred0.components;
-        OpenSIS sis(N, n, std::unique_ptr<ParticleSetInitialization>(new CaseInit(pred0)),
-                    std::unique_ptr<PFPrediction>(new StubPrediction(n, sh)),
-                    std::unique_ptr<PFCorrection>(new LoggingCorrection(sh, std::unique_ptr<FaultyModel>(new FaultyModel(sh, H, R, false)))),
-                    std::unique_ptr<Resampling>(new NeverResample(sh)));
-        { vf::Entry e("SIS::initialization_step"); sis.init(); }
+        ScriptedSIS sis(N, n, std::unique_ptr<ParticleSetInitialization>(new CaseInit(pred0)),
+                        std::unique_ptr<PFPrediction>(new StubPrediction(n, sh)),
+                        std::unique_ptr<PFCorrection>(new LoggingBootstrap(sh, std::unique_ptr<MeasurementModel>(new FaultyModel(sh, H, R, false)),
+                                                                           std::unique_ptr<LikelihoodModel>(new GaussianLikelihood()))),
+                        std::unique_ptr<Resampling>(new LoggingResampling(sh)));
+        sis.c = &c; sis.sh = sh; sis.steps = c.mi("steps");
         sis.cor() = cor0;
-        ParticleSet pred_copy(sis.pred());
-        sh->log.clear();
         vf::out_int("step_begin0", 1); std::cout << std::flush;
-        { vf::Entry e("SIS::filtering_step"); sis.step(); }
-        emit_ps("0", sis.pred(), pred_copy, sis.cor());
-        vf::out_int("ident0", vf::bit_equal(sis.cor().mean(), sis.pred().mean()) && vf::bit_equal(sis.cor().covariance(), sis.pred().covariance())
-                                  && vf::bit_equal(sis.cor().weight(), sis.pred().weight()) && same_shape(sis.cor(), sis.pred())
-                                  && vf::bit_equal(sis.cor().state(), sis.pred().state()));
-        out_log("log0", sh->log);
-        long ncorrect = 0; for (auto& s : sh->log) if (s == "C") ncorrect++;
-        vf::out_int("correct_calls", ncorrect);
+        { vf::Entry e("SIS::boot/run/wait"); sis.boot(); sis.run(); sis.wait(); }
+        vf::out_int("steps_run", (long)sis.rec.size());
+        for (long k = 0; k < (long)sis.rec.size(); k++) {
+            const std::string ks = std::to_string(k);
+            const StepRecord& r = sis.rec[k];
+            out_log("events" + ks, r.log);
+            vf::out_int("logged" + ks, r.logged);
+            vf::out_int("ident_atlog" + ks, r.logged && ps_equal(r.cor_at_log, r.pred_at_log));
+            vf::out_int("ident_atlog_w" + ks, r.logged && vf::bit_equal(r.cor_at_log.weight(), r.pred_at_log.weight()));
+            vf::out_int("ident_atlog_state" + ks, r.logged && vf::bit_equal(r.cor_at_log.state(), r.pred_at_log.state()));
+            vf::out_int("cor_is_atlog" + ks, r.logged && ps_equal(r.cor_end, r.cor_at_log));
+            long nc = 0, nr = 0; for (auto& t : r.log) { if (t == "C") nc++; if (t == "resample") nr++; }
+            vf::out_int("correct_calls" + ks, nc);
+            vf::out_int("resampled" + ks, nr);
+            if (r.logged) { vf::out_mat("atlog_w" + ks, r.cor_at_log.weight()); vf::out_mat("pred_w" + ks, r.pred_at_log.weight()); }
+        }
     } else {
         std::fprintf(stderr, "BFL_VERIF_HARNESS unknown kind %s\n", kind.c_str());
         std::exit(3);
